@@ -467,6 +467,8 @@ func GenC01(r *Rng, n int, tier string) []PipeIn {
 				} else {
 					s.Stream = hex.EncodeToString(genStream(r, r.Intn(maxLines+1), func() []byte { return genLine(r, 12) }))
 					s.Gz = in.Cfg.Gunzip && r.Bool()
+					// a named pipe among the inputs (rare histo <(cmd) app.log): reports size 0, cannot be rewound
+					s.Fifo = r.Chance(1, 8) && (!in.Cfg.Gunzip || s.Gz)
 				}
 				in.Sources = append(in.Sources, s)
 			}
